@@ -60,7 +60,7 @@ Emit == OnTree(PrintT(<<"CASE", ToJson([min |-> Min(t), full |-> Full(t), at |->
 OpsSmall == {<<"a">>, <<"b">>, <<"a","*">>, <<"?","b">>, <<"*">>}
 \* (tag names that BEGIN with the letters of a keyword followed by punctuation are plain operands: "not-r", "or.x")
 OpsMid   == {<<"a">>, <<"b">>, <<"c",".","d">>, <<"a","*">>, <<"?","b">>, <<"x","-","y","=","1">>, <<"*">>,
-             <<"n","o","t","-","r">>, <<"o","r",".","x">>}
+             <<"n","o","t","-","r">>, <<"o","r",".","x">>, <<"N","O","T","-","r">>}
 OpsFull  == OpsMid \cup {<<"[","a","z","]","b">>, <<"[","!","a","]","b">>}
-Univ     == << <<"a">>, <<"b">>, <<"a","b">>, <<"z","b">>, <<"c",".","d">>, <<"x","-","y","=","1">>, <<"n","o","t","-","r">> >>
+Univ     == << <<"a">>, <<"b">>, <<"a","b">>, <<"z","b">>, <<"c",".","d">>, <<"x","-","y","=","1">>, <<"N","O","T","-","r">> >>
 =============================================================================
